@@ -53,21 +53,20 @@ Print Assumptions gen_overlaps_spec.
    computeMerkleRoot is translated up to the call of merklemulti.NewTree (table: Cut) and yields the leaf hashes. *)
 
 (* ---------- msgsCoverRange ---------- *)
-Lemma gen_msgs_cover_range_loop_spec : forall l s e,
-  gen_msgs_cover_range_loop (s, e) l =
-  if forallb (fun q => N.leb s q && N.leb q e) l then Ok tt else Err.
-Proof.
-  induction l as [|q l IH]; intros s e; gen_step gen_msgs_cover_range_loop; [reflexivity|].
-  rewrite IH. cbn [forallb]. gen_auto.
-Qed.
-
-(* (a) generated = modelled.  len(msgs) is a Go int: the list is shorter than 2^63 *)
+(* (a) generated = modelled.  len(msgs) is a Go int: the list is shorter than 2^63.
+   The loop is found through its call marker; its lemma is stated over whatever the loop function is. *)
 Theorem gen_msgs_cover_range_eq : forall (ms : list msg) s e,
   (Z.of_nat (length ms) < 2 ^ 63)%Z ->
   gen_msgs_cover_range (map m_seq ms) (s, e) = if covers ms s e then Ok tt else Err.
 Proof.
-  intros ms s e Hlen. unfold gen_msgs_cover_range. rewrite gen_msgs_cover_range_loop_spec.
-  rewrite map_length, forallb_map'. unfold covers.
+  intros ms s e Hlen. gen_open.
+  lazymatch goal with
+  | |- context [gen_loop1 ?f _] =>
+      assert (L : forall l, f l = if forallb (fun q => N.leb s q && N.leb q e) l then Ok tt else Err)
+        by (induction l as [|q l IH]; gen_loop_step f; [reflexivity|]; rewrite IH; cbn [forallb]; gen_auto);
+      unfold gen_loop1; rewrite L; clear L
+  end.
+  rewrite ?map_length, forallb_map'. unfold covers.
   destruct ms as [|m ms']; [cbn [length map forallb]; gen_auto|].
   cbn [length] in *. destruct (forallb (fun x : msg => N.leb s (m_seq x) && N.leb (m_seq x) e) (m :: ms')); gen_auto.
 Qed.
@@ -93,43 +92,46 @@ Section Hashes.
   Definition to_msg (m : N * N) : msg :=
     (fst m, 0%N, match hash m with Ok x => Some x | _ => None end).
 
-  Lemma gen_compute_root_hashes_loop_spec : forall l i prev acc,
-    (0 <= i)%Z -> ((0 < i)%Z <-> prev <> None) ->
-    gen_compute_root_hashes_loop hash l i prev acc =
-    match hash_consecutive (option_map fst prev) (map to_msg l) with
-    | Some hs => Ok (acc ++ hs)
-    | None => Err
-    end.
-  Proof.
-    induction l as [|m l IH]; intros i prev acc Hi Hp; gen_step gen_compute_root_hashes_loop;
-      cbn [map hash_consecutive].
-    - now rewrite app_nil_r.
-    - assert (Hn : forall a, gen_compute_root_hashes_loop hash l (Z.add i 1) (Some m) a =
-                             match hash_consecutive (Some (fst m)) (map to_msg l) with
-                             | Some hs => Ok (a ++ hs) | None => Err end).
-      { intros a. rewrite IH; [reflexivity|lia|]. split; [discriminate|lia]. }
-      unfold m_seq, m_hash, to_msg at 1 2 3. cbn [fst snd].
-      destruct (Z.ltb_spec 0 i) as [Hpos|Hz].
-      + destruct prev as [p|]; [|exfalso; apply (proj1 Hp Hpos); reflexivity].
-        cbn [option_map]. unfold succ64.
-        destruct (N.eqb (fst m) (add64 (fst p) 1)); cbn [negb]; [|reflexivity].
-        destruct (hash_total m) as [E|[x E]]; rewrite E; [reflexivity|].
-        rewrite Hn. destruct (hash_consecutive (Some (fst m)) (map to_msg l)); [|reflexivity].
-        now rewrite <- app_assoc.
-      + destruct prev as [p|]; [exfalso; assert (0 < i)%Z by (apply Hp; discriminate); lia|].
-        cbn [option_map].
-        destruct (hash_total m) as [E|[x E]]; rewrite E; [reflexivity|].
-        rewrite Hn. destruct (hash_consecutive (Some (fst m)) (map to_msg l)); [|reflexivity].
-        now rewrite <- app_assoc.
-  Qed.
+  (* the loop: the index says whether there is a previous message; [prev] is that message *)
+  Ltac root_loop_lemma f :=
+    assert (L : forall l i prev acc,
+      (0 <= i)%Z -> ((0 < i)%Z <-> prev <> None) ->
+      f l i prev acc =
+      match hash_consecutive (option_map fst prev) (map to_msg l) with
+      | Some hs => Ok (acc ++ hs)
+      | None => Err
+      end).
 
   (* (a) generated = modelled: sort by sequence number, consecutive under the uint64 successor, hash in order *)
   Theorem gen_compute_root_hashes_eq : forall ms,
     gen_compute_root_hashes hash ms =
     match hash_consecutive None (sort_by seq_le (map to_msg ms)) with Some hs => Ok hs | None => Err end.
   Proof.
-    intros ms. unfold gen_compute_root_hashes. cbv zeta.
-    rewrite gen_compute_root_hashes_loop_spec; [|lia|split; [lia|intros H; now elim H]].
+    intros ms. gen_open.
+    lazymatch goal with
+    | |- context [gen_loop4 ?f _ _ _ _] => root_loop_lemma f
+    end.
+    { induction l as [|m l IH]; intros i prev acc Hi Hp;
+        lazymatch goal with |- ?lhs = _ => let h := gen_head lhs in cbn [h]; cbv zeta end;
+        cbn [map hash_consecutive].
+      - now rewrite app_nil_r.
+      - assert (Hn : forall a, _ = match hash_consecutive (Some (fst m)) (map to_msg l) with
+                                   | Some hs => Ok (a ++ hs) | None => Err end)
+          by (intros a; apply (IH (Z.add i 1) (Some m) a); [lia|split; [discriminate|lia]]).
+        unfold m_seq, m_hash, to_msg at 1 2 3. cbn [fst snd]. unfold succ64.
+        destruct (Z.ltb_spec 0 i) as [Hpos|Hz].
+        + destruct prev as [p|]; [|exfalso; apply (proj1 Hp Hpos); reflexivity].
+          cbn [option_map].
+          destruct (N.eqb (fst m) (add64 (fst p) 1)); cbn [negb]; [|reflexivity].
+          destruct (hash_total m) as [E|[x E]]; rewrite E; [reflexivity|].
+          rewrite Hn. destruct (hash_consecutive (Some (fst m)) (map to_msg l)); [|reflexivity].
+          now rewrite <- app_assoc.
+        + destruct prev as [p|]; [exfalso; assert (0 < i)%Z by (apply Hp; discriminate); lia|].
+          cbn [option_map].
+          destruct (hash_total m) as [E|[x E]]; rewrite E; [reflexivity|].
+          rewrite Hn. destruct (hash_consecutive (Some (fst m)) (map to_msg l)); [|reflexivity].
+          now rewrite <- app_assoc. }
+    unfold gen_loop4. rewrite L; [|lia|split; [lia|intros H; now elim H]].
     cbn [option_map app].
     rewrite (sort_by_map to_msg (fun a b => N.leb (fst a) (fst b)) seq_le); [reflexivity|].
     intros a b. reflexivity.
